@@ -626,7 +626,7 @@ def instances(tier):
         return out
 
     # ------------------------------------------------------------------ thorough
-    B = 600
+    B = 800
     for ms in [(1, 2), (3, 12)]:
         out.append(Inst(match_date, dict(months=ms), budget=B))
         out.append(Inst(calendar_entry, dict(choice='date', months=ms), budget=B))
